@@ -282,6 +282,21 @@ def r1_type_ladders(ctx):
                 ctx.unrecognised(CF + "export.py", "ExportConfig.parse", cell, f"keyword expression {g!r}")
                 continue
         ctx.check(g == want, CF + "export.py", "ExportConfig.parse", f"type keyword cell {cell}", detail=g, expected=want)
+        if kind == "int":
+            # the literal of an integer node: a value re-assigned in another unit is held as a float (3.0) by the typed
+            # value, and `3.0` is not an integer literal the DIP reader accepts - the emitted text goes through int()
+            vals = {norm(q.env["value"]) if q.env.get("value") is not None else None for q in cs}
+            whatv = f"literal cell {cell}: an integer node is written as an integer literal"
+            if len(vals) != 1 or None in vals:
+                ctx.unrecognised(CF + "export.py", "ExportConfig.parse", whatv, f"emitted value not a single expression: {sorted(map(str, vals))[:2]}")
+            else:
+                v = vals.pop()
+                if v.startswith("int(") and v.endswith(")"):
+                    ctx.holds(CF + "export.py", "ExportConfig.parse", whatv, detail=v)
+                elif v == f"{P}.value":
+                    ctx.violated(CF + "export.py", "ExportConfig.parse", whatv, detail=f"value = {v} (the typed value as stored)", expected=f"int({P}.value)")
+                else:
+                    ctx.unrecognised(CF + "export.py", "ExportConfig.parse", whatv, f"emitted value {v[:80]}")
 
 
 def r2_array_layout(ctx):
